@@ -429,7 +429,14 @@ func (s *ATStmt) Render(sc *ATSchema) (string, []interface{}, string) {
 		} else {
 			o.sb.WriteString(verb + s.tableText(sc) + " (" + strings.Join(names, ", ") + ") VALUES ")
 		}
-		fmt.Fprintf(&o.tok, "%c%d:%d:", s.Kind, len(s.Rows), len(sc.Cols))
+		if s.Kind == 'Y' && s.Form == 'r' {
+			// for the model a REPLACE is two statements: the rows stored under its keys are deleted, then its
+			// rows are inserted (that is also how its images are recorded: a DELETE item, then an INSERT item)
+			o.tok.WriteString(replaceDeleteTok(sc, s.Rows) + " ")
+			fmt.Fprintf(&o.tok, "X%d:%d:", len(s.Rows), len(sc.Cols))
+		} else {
+			fmt.Fprintf(&o.tok, "%c%d:%d:", s.Kind, len(s.Rows), len(sc.Cols))
+		}
 		for i, row := range s.Rows {
 			if i > 0 {
 				o.sb.WriteString(", ")
@@ -490,7 +497,7 @@ func (s *ATStmt) Render(sc *ATSchema) (string, []interface{}, string) {
 			}
 			o.sb.WriteString(")")
 		}
-		if s.Kind == 'Y' {
+		if s.Kind == 'Y' && s.Form != 'r' {
 			if s.Form == 0 {
 				o.sb.WriteString(" ON DUPLICATE KEY UPDATE ")
 			}
@@ -545,6 +552,33 @@ func (s *ATStmt) Render(sc *ATSchema) (string, []interface{}, string) {
 		goArgs[i] = a.Go()
 	}
 	return o.sb.String(), goArgs, o.tok.String()
+}
+
+// replaceDeleteTok is the model token of "DELETE FROM t WHERE <key of one of the rows>" (no arguments)
+func replaceDeleteTok(sc *ATSchema, rows [][]*ATExpr) string {
+	var sb strings.Builder
+	sb.WriteString("D")
+	one := func(row []*ATExpr) string {
+		var parts []string
+		for _, p := range sc.PK {
+			parts = append(parts, fmt.Sprintf("Cec%d.l%s", p, row[p].Val.Tok()))
+		}
+		out := parts[len(parts)-1]
+		for k := len(parts) - 2; k >= 0; k-- {
+			out = "A" + parts[k] + out
+		}
+		return out
+	}
+	conds := make([]string, len(rows))
+	for i, row := range rows {
+		conds[i] = one(row)
+	}
+	out := conds[len(conds)-1]
+	for k := len(conds) - 2; k >= 0; k-- {
+		out = "O" + conds[k] + out
+	}
+	sb.WriteString(out + "G0:")
+	return sb.String()
 }
 
 // ---- generation ----
@@ -1003,11 +1037,7 @@ func genStmt(r *Rng, sc *ATSchema, taken map[string]bool, o ATGenOpts) *ATStmt {
 		case 1:
 			// REPLACE: rows whose key exists are replaced (every non-key column takes the new value)
 			st.Form, st.Assign = 'r', nil
-			for ci := range sc.Cols {
-				if !sc.isPK(ci) {
-					st.Assign = append(st.Assign, ATUpAssign{Col: ci})
-				}
-			}
+			st.Classes = nil
 			return st
 		}
 		if o.PKUpdates && (len(st.Rows)+len(st.Assign)+len(sc.Cols))%2 == 0 {
